@@ -103,6 +103,31 @@ let () =
            | None -> Buffer.add_string b "#-"
            | Some (st, out) -> Buffer.add_string b (Printf.sprintf "#X %d %s" (int_of_n st) (hex_of_bytes out))) res;
          print_endline (Buffer.contents b)
+     | "cabset", salv :: fixz :: bs :: ops :: hexes ->
+         (* ops: oK (open file K) | mL:R (merge, "-" for NULL) | lC (list) | xC:I (extract) separated by commas *)
+         let files = List.map bytes_of_hex hexes in
+         let optn s = if s = "-" then None else Some (n_of_int (int_of_string s)) in
+         let op s = let a = String.sub s 1 (String.length s - 1) in
+                    match s.[0] with
+                    | 'o' -> SOpen (n_of_int (int_of_string a))
+                    | 'm' -> (match String.split_on_char ':' a with [l; r] -> SMerge (optn l, optn r) | _ -> SMerge (None, None))
+                    | 'l' -> SList (n_of_int (int_of_string a))
+                    | _ -> (match String.split_on_char ':' a with [c; i] -> SExtract (n_of_int (int_of_string c), n_of_int (int_of_string i)) | _ -> SList N0) in
+         let res = set_session (salv = "1") (fixz = "1") (n_of_int (int_of_string bs)) files (List.map op (String.split_on_char ',' ops)) in
+         let b = Buffer.create 4096 in
+         let same (a1, a2) (b1, b2) = int_of_n a1 = int_of_n b1 && int_of_n a2 = int_of_n b2 in
+         List.iter (fun r -> match r with
+           | ROpen e -> Buffer.add_string b (Printf.sprintf "#O %d" (int_of_n e))
+           | RMerge e -> Buffer.add_string b (Printf.sprintf "#M %d" (int_of_n e))
+           | RList (hp, hn, fos, fis) ->
+             Buffer.add_string b (Printf.sprintf "#L %d %d" (if hp then 1 else 0) (if hn then 1 else 0));
+             List.iter (fun f -> Buffer.add_string b (Printf.sprintf ";D %d %d" (int_of_n f.sf_comp) (int_of_n f.sf_nblocks))) fos;
+             List.iter (fun sf -> let f = sf.sfi_f in
+               let rec idx i = function [] -> -1 | fo :: r -> if same fo.sf_id sf.sfi_folder then i else idx (i + 1) r in
+               Buffer.add_string b (Printf.sprintf ";F %s %d %d %d %d" (if f.fi_name = [] then "e" else hex_of_bytes f.fi_name) (int_of_n f.fi_len) (int_of_n f.fi_attr) (idx 0 fos) (int_of_n f.fi_off))) fis
+           | RExtr None -> Buffer.add_string b "#-"
+           | RExtr (Some (st, out)) -> Buffer.add_string b (Printf.sprintf "#X %d %s" (int_of_n st) (hex_of_bytes out))) res;
+         print_endline (Buffer.contents b)
      | "lzss", [mode; hex] -> Printf.printf "0 %s\n" (hex_of_bytes (lzss_spec (n_of_int (int_of_string mode)) (bytes_of_hex hex)))
      | _ -> print_endline "?");
     flush stdout
